@@ -21,6 +21,7 @@ import (
 	"verif/hp/ev"
 	"verif/hp/peer"
 	"verif/hp/tp"
+	"verif/hp/wire"
 )
 
 func TestMain(m *testing.M) { ev.Main(m, "C09") }
@@ -325,8 +326,18 @@ func TestScriptedPeer(t *testing.T) {
 		n := rapid.IntRange(1, 8).Draw(rt, "callers")
 		script := genScript(rt, n)
 		round2 := rapid.IntRange(1, 4).Draw(rt, "round2")
+		// how the peer delivers: frames written whole or in several segments (stream sockets), and how much the
+		// responses nobody waits for carry (a late answer can be large)
+		pieces := rapid.SampledFrom([]int{1, 1, 2, 3}).Draw(rt, "segments")
+		pad := rapid.SampledFrom([]int{0, 0, 5000, 300000}).Draw(rt, "unwantedBodyPadding")
+		if kind != "tcp" && kind != "unix" {
+			pieces = 1
+		}
+		if kind == "udp" && pad > 5000 {
+			pad = 5000
+		}
 		id := atomic.AddInt64(&caseSeq, 1)
-		canon := fmt.Sprintf("%s callers=%d script=%v then %d more calls", kind, n, script, round2)
+		canon := fmt.Sprintf("%s callers=%d script=%v then %d more calls; frames in %d segments, unwanted bodies padded by %d", kind, n, script, round2, pieces, pad)
 		ev.S.Begin("scripted-peer", canon)
 		p, err := peer.Start(kind)
 		if err != nil {
@@ -341,6 +352,24 @@ func TestScriptedPeer(t *testing.T) {
 		problem := ""
 		strays, dups := 0, 0
 		nextTag := 0
+		padding := strings.Repeat("p", pad)
+		send := func(f peer.Frame) {
+			if pieces == 1 {
+				p.Send(f)
+				return
+			}
+			raw := wire.SocketFrame(f.Index, f.Body, false)
+			cuts := []int{7} // the first segment ends inside the 12-byte header
+			if pieces > 2 && len(f.Body) > 1 {
+				cuts = append(cuts, 12+len(f.Body)/2) // the second inside the body
+			}
+			lo := 0
+			for _, hi := range append(cuts, len(raw)) {
+				p.Raw(raw[lo:hi])
+				time.Sleep(300 * time.Microsecond)
+				lo = hi
+			}
+		}
 		round := func(n int, script []action) {
 			tags := make([]string, n)
 			done := make([]chan result, n)
@@ -379,26 +408,26 @@ func TestScriptedPeer(t *testing.T) {
 					body := respBody("r:" + tag)
 					if a.Kind == "dup" {
 						dups++
-						body = respBody("dup:" + tag)
+						body = respBody("dup:" + tag + padding)
 					}
-					p.Send(peer.Frame{Index: index[tag], Body: body})
+					send(peer.Frame{Index: index[tag], Body: body})
 					answered = append(answered, index[tag])
 				case "stray-zero":
 					strays++
-					p.Send(peer.Frame{Index: 0, Body: respBody("stray")})
+					send(peer.Frame{Index: 0, Body: respBody("stray" + padding)})
 				case "stray-big":
 					strays++
 					big := 0x7ffffff0 + a.Which
 					if kind == "udp" {
 						big = 0x7ff0 + a.Which
 					}
-					p.Send(peer.Frame{Index: big, Body: respBody("stray")})
+					send(peer.Frame{Index: big, Body: respBody("stray" + padding)})
 				case "stray-future":
 					strays++
-					p.Send(peer.Frame{Index: maxIndex + 1 + a.Which, Body: respBody("stray")})
+					send(peer.Frame{Index: maxIndex + 1 + a.Which, Body: respBody("stray" + padding)})
 				case "stray-answered":
 					strays++
-					p.Send(peer.Frame{Index: answered[a.Which%len(answered)], Body: respBody("stray")})
+					send(peer.Frame{Index: answered[a.Which%len(answered)], Body: respBody("stray" + padding)})
 				case "text":
 					p.Text([]byte("hello"))
 				}
@@ -431,7 +460,7 @@ func TestScriptedPeer(t *testing.T) {
 				problem = fmt.Sprintf("the client reconnected (%d connections): a stray or duplicate response disturbed the connection", p.Connections())
 			}
 		}
-		ev.S.Case("scripted-peer", canon, strays+dups > 0, "scripted="+kind, fmt.Sprintf("strays=%v", strays > 0), fmt.Sprintf("dups=%v", dups > 0))
+		ev.S.Case("scripted-peer", canon, strays+dups > 0, "scripted="+kind, fmt.Sprintf("strays=%v", strays > 0), fmt.Sprintf("dups=%v", dups > 0), fmt.Sprintf("scripted-segmented=%v", pieces > 1), fmt.Sprintf("scripted-large-unwanted=%v", pad > 5000))
 		report(rt, "scripted-peer", "TestScriptedPeer", canon, problem)
 	})
 }
